@@ -2,7 +2,9 @@
 source sets one after the other with the real emboss of argv[1], and writes one JSON
 record per set to argv[3].  No harness imports: only the emboss under test.
 
-job file: {"sets": [{"name", "files": {name: text}, "main", "full": bool}], "finddirs": [...]}
+job file: {"sets": [{"name", "files": {name: text}, "main", "full": bool}], "finddirs": [...],
+           "trace": [[file suffix, function name], ...]  (optional: per record "reached": was a
+           function of that name in that file CALLED while the set was compiled — sys.setprofile)}
 record:   {"name", "exc", "ir_sha", "header_sha", "err_sha", "err_src_sha", "prod_sha",
            "errors" (text, truncated unless full), "mods": [[file, [anon numbers…]], …],
            "ir", "header" (only when full)}
@@ -37,7 +39,33 @@ def reader(files):
     return read
 
 
+TRACE = []          # [(file suffix, function name)] — set from job["trace"]
+_reached = set()
+
+
+def _profile(frame, event, arg):
+    # 'call' events only matter; cheap test on the code object's name first
+    if event == "call":
+        co = frame.f_code
+        for i, (suffix, fn) in enumerate(TRACE):
+            if co.co_name == fn and co.co_filename.endswith(suffix):
+                _reached.add(i)
+
+
 def one(s):
+    if not TRACE:
+        return one_(s)
+    _reached.clear()
+    sys.setprofile(_profile)
+    try:
+        rec = one_(s)
+    finally:
+        sys.setprofile(None)
+    rec["reached"] = [i in _reached for i in range(len(TRACE))]
+    return rec
+
+
+def one_(s):
     rec = {"name": s["name"], "exc": None, "mods": []}
     ir_json = header = None
     errs_text = errs_src_text = ""
@@ -96,6 +124,7 @@ def finddirs(job):
 def main():
     with open(jobfile) as f:
         job = json.load(f)
+    TRACE.extend((a, b) for a, b in job.get("trace", []))
     res = {"records": [one(s) for s in job.get("sets", [])]}
     if job.get("finddirs"):
         res["finddirs"] = finddirs(job["finddirs"])
